@@ -1,1 +1,636 @@
-"""(job kinds registered here)"""
+"""C16 (thread safety: concurrent runs and builds) and C17 (AsyncDAG == DAG, isolated awaits, free loop)."""
+from __future__ import annotations
+
+import asyncio
+import queue
+import random
+import sys
+import threading
+import time
+import traceback
+import warnings
+from collections import Counter
+
+from . import bootstrap as B
+from . import probes, sched, spec as S
+from .jobs import REGISTRY, Collector, job
+from .sym import Sym, same, short
+
+
+def fingerprint(d):
+    """Everything that identifies a built DAG (ids, attributes, references, constants, inputs, return shape, edges, priorities)."""
+    nodes = []
+    for k, xn in d.exec_nodes.items():
+        nodes.append((k, type(xn).__name__, tuple((u.id, tuple(u.key)) for u in xn.args),
+                      tuple(sorted((kk, u.id, tuple(u.key)) for kk, u in xn.kwargs.items())),
+                      None if xn.active is None else (xn.active.id, tuple(xn.active.key)), xn.priority, xn.is_sequential,
+                      str(xn.resource), str(xn.tag), xn.setup, xn.debug, xn.unpack_to))
+    ret = d.return_uxns
+
+    def r(u):
+        return (u.id, tuple(u.key))
+
+    if ret is None:
+        rs = None
+    elif isinstance(ret, (list, tuple)):
+        rs = (type(ret).__name__, tuple(r(u) for u in ret))
+    elif isinstance(ret, dict):
+        rs = ("dict", tuple((k, r(u)) for k, u in ret.items()))
+    else:
+        rs = ("single", r(ret))
+    consts = tuple(sorted((k, short(v, 80)) for k, v in d.results.items()))
+    return (tuple(nodes), consts, tuple(u.id for u in d.input_uxns), rs, tuple(sorted(d.graph_ids.edges)),
+            tuple(sorted(d.graph_ids.compound_priority.items())), d.max_concurrency)
+
+
+def fp_diff(a, b):
+    names = ["nodes", "constants", "inputs", "return", "edges", "compound_priority", "max_concurrency"]
+    out = []
+    for nm, x, y in zip(names, a, b):
+        if x != y:
+            if nm == "nodes":
+                ka, kb = {n[0] for n in x}, {n[0] for n in y}
+                out.append({"part": nm, "only_in_concurrent": sorted(ka - kb)[:6], "only_in_alone": sorted(kb - ka)[:6]})
+            else:
+                out.append({"part": nm, "concurrent": short(x, 200), "alone": short(y, 200)})
+    return out
+
+
+# ------------------------------------------------------------------------------------------------ lockset monitor
+class Lockset:
+    """Python-level 'Eraser': every touch of the objects currently bound to node.exec_nodes / node.results must be
+    performed by the thread that owns exec_nodes_lock (DESIGN 2.6)."""
+
+    def __init__(self):
+        self.reports = []
+        self.touches = 0
+        self.installed = False
+
+    def install(self):
+        if self.installed:
+            return
+        from tawazi._helpers import StrictDict
+        from tawazi.node import node as N
+
+        mon = self
+        real = N.exec_nodes_lock
+
+        class OwnedLock:
+            def __init__(self):
+                self._l = real
+                self.owner = None
+
+            def acquire(self, *a, **k):
+                r = self._l.acquire(*a, **k)
+                if r:
+                    self.owner = threading.get_ident()
+                return r
+
+            def release(self):
+                self.owner = None
+                self._l.release()
+
+            def locked(self):
+                return self._l.locked()
+
+            def __enter__(self):
+                self.acquire()
+                return self
+
+            def __exit__(self, *a):
+                self.release()
+
+        lk = OwnedLock()
+        N.exec_nodes_lock = lk
+        self.lock = lk
+
+        def touch(obj, op):
+            if obj is N.exec_nodes or obj is N.results:
+                mon.touches += 1
+                me = threading.get_ident()
+                if lk.owner != me:
+                    fr = [f for f in traceback.extract_stack() if "/tawazi/" in f.filename]
+                    mon.reports.append((op, "exec_nodes" if obj is N.exec_nodes else "results",
+                                        fr[-1].name if fr else "?", fr[0].name if fr else "?", lk.owner is not None))
+
+        for meth in ("__setitem__", "__getitem__", "__contains__", "update", "force_set", "items", "values", "__iter__", "__len__", "get", "keys"):
+            orig = StrictDict.__dict__.get(meth) or getattr(dict, meth)
+
+            def mk(orig=orig, meth=meth):
+                def w(self, *a, **k):
+                    touch(self, meth)
+                    return orig(self, *a, **k)
+
+                return w
+
+            setattr(StrictDict, meth, mk())
+        self.installed = True
+
+
+LOCKSET = Lockset()
+
+
+# ------------------------------------------------------------------------------------------------ C16
+def per_token_cases(log, spec, d, plain, calls):
+    """Split a multi-threaded log into one case per execution token.
+    calls: {thread ident: [(opid, args, ref, res)] in call order}."""
+    pools = [e for e in log if e["kind"] == "POOL_NEW"]
+    by_thread = {}
+    for e in pools:
+        by_thread.setdefault(e["thread"], []).append(e["token"])
+    ids = S.node_ids(spec)
+    out = []
+    for th, toks in by_thread.items():
+        cl = calls.get(th, [])
+        for tok, (opid, args, ref, res) in zip(toks, cl):
+            evs = [e for e in log if e.get("token") == tok or (e["kind"] in ("OP_BEGIN", "OP_END") and e.get("opid") == opid)]
+            out.append({"spec": spec, "op": {"kind": "call"}, "args": args, "faults": [], "ref": ref, "res": res, "log": evs,
+                        "ids": ids, "sel": None, "dag": d, "plain": plain})
+    return out
+
+
+def run_op_id(label, thunk, opid):
+    s0 = B.ev("OP_BEGIN", op=label, opid=opid)
+    me = threading.get_ident()
+    probes.CURRENT_OPS[me] = (label, time.monotonic())
+    try:
+        val = thunk()
+    except BaseException as e:  # noqa: BLE001
+        probes.CURRENT_OPS.pop(me, None)
+        B.ev("OP_END", op=label, ok=False, exc=type(e).__name__, begin=s0, opid=opid)
+        return ("exc", e)
+    probes.CURRENT_OPS.pop(me, None)
+    B.ev("OP_END", op=label, ok=True, begin=s0, opid=opid)
+    return ("ok", val)
+
+
+def w1_concurrent_calls(col, rng, cidx, jobref):
+    """N threads call one DAG with distinct argument nonces."""
+    pid = "C16"
+    sp = sched.gen_shape(rng, nmin=3, nmax=8, mc_max=4)
+    sp["is_async"] = False
+    d, _e, plain = S.build_tawazi(sp)
+    ids = S.node_ids(sp)
+    nthreads = rng.choice([2, 4, 8, 16])
+    ncalls = rng.randint(1, 3)
+    plan_ = {t: [[Sym("arg", cidx, t, k)] for k in range(ncalls)] for t in range(nthreads)}
+    refs = {t: [S.run_reference(sp, a, plain) for a in plan_[t]] for t in range(nthreads)}
+    rp = {"kind": "rerun_job", "job": dict(jobref, n_cases=cidx + 1), "source": S.render(sp), "threads": nthreads}
+    B.reset_log()
+    probes.reset_counts()
+    B.Settings.controlled = False
+    B.Settings.stress_sleep = 0.002
+    calls = {}
+    start = threading.Barrier(nthreads)
+    lock = threading.Lock()
+
+    def worker(t):
+        me = threading.get_ident()
+        start.wait()
+        for k, a in enumerate(plan_[t]):
+            opid = "%d.%d.%d" % (cidx, t, k)
+            r = run_op_id("call", lambda: d(*a), opid)
+            with lock:
+                calls.setdefault(me, []).append((opid, a, refs[t][k], r))
+
+    ths = [threading.Thread(target=worker, args=(t,)) for t in range(nthreads)]
+    for t in ths:
+        t.start()
+    for t in ths:
+        t.join(120)
+    if any(t.is_alive() for t in ths):
+        col.inconclusive.append("concurrent-call threads did not finish within 120 s")
+        return
+    log = B.snapshot()
+    col.evaluations += 1
+    for me, cl in calls.items():
+        for opid, a, ref, r in cl:
+            col.counters["c16_concurrent_calls"] += 1
+            if ref[0] != "ok":
+                continue
+            if r[0] != "ok":
+                col.violation(pid, "concurrent_call_raised", dict(exc=repr(r[1])[:300], threads=nthreads, source=S.render(sp)), rp)
+            elif not same(ref[1].result, r[1]):
+                col.violation(pid, "concurrent_call_got_result_for_other_arguments_or_wrong_value", dict(
+                    expected=short(ref[1].result, 300), got=short(r[1], 300), threads=nthreads, source=S.render(sp)), rp)
+    for case in per_token_cases(log, sp, d, plain, calls):
+        viol, st, _v = sched.check_all(case)
+        col.counters["c16_per_execution_monitor_runs"] += 1
+        for x in viol:
+            if x["prop"] in ("C02", "C03", "C04", "C05"):
+                col.violation(pid, "per_execution_monitor_failed_under_concurrent_calls(%s:%s)" % (x["prop"], x["mech"]), x["witness"], rp)
+    order = tuple(e["node"] for e in log if e["kind"] == "FENTER")[:60]
+    col.hashes.add(S.spec_hash({"s": S.render(sp), "t": nthreads, "o": hash(order) & 0xFFFFFF}))
+    if cidx % 20 == 0:
+        col.sample(dict(workload="concurrent calls of one DAG", source=S.render(sp), threads=nthreads, calls_per_thread=ncalls,
+                        tokens=len([e for e in log if e["kind"] == "POOL_NEW"])))
+
+
+def w2_build_overlap(col, rng, cidx, jobref):
+    """Thread A pauses INSIDE its describing function (handshake => the overlap is deterministic) while thread B calls a
+    shared DAG, calls a decorated function outside any DAG, and thread C builds another DAG."""
+    pid = "C16"
+    from tawazi import xn
+    from tawazi.config import cfg
+    from tawazi.consts import XNOutsideDAGCall
+    from tawazi.errors import TawaziUsageError
+
+    shared_sp = sched.gen_shape(rng, nmin=2, nmax=5, mc_max=2)
+    shared_sp["name"] = "shared"
+    shared, _e, shared_plain = S.build_tawazi(shared_sp)
+    a_sp = sched.gen_shape(rng, nmin=2, nmax=6, mc_max=2)
+    a_sp["name"] = "building"
+    c_sp = sched.gen_shape(rng, nmin=2, nmax=5, mc_max=2)
+    c_sp["name"] = "other"
+    a_plain = S.make_fns(a_sp)
+    c_plain = S.make_fns(c_sp)
+    alone_a, _e, _p = S.build_tawazi(a_sp, plain=a_plain)
+    alone_c, _e, _p = S.build_tawazi(c_sp, plain=c_plain)
+    fp_a, fp_c = fingerprint(alone_a), fingerprint(alone_c)
+    outside = xn(probes.mkprobe("outside_fn"))
+    behaviour = rng.choice([XNOutsideDAGCall.error, XNOutsideDAGCall.ignore, XNOutsideDAGCall.warning])
+    rp = {"kind": "rerun_job", "job": dict(jobref, n_cases=cidx + 1), "building": S.render(a_sp), "shared": S.render(shared_sp)}
+    ev_in, ev_go = threading.Event(), threading.Event()
+    pause_at = rng.randrange(len(a_sp["nodes"]))
+    out = {}
+
+    def wrap(real):
+        def w(*a, **k):
+            ev_in.set()
+            ev_go.wait(20)
+            return real(*a, **k)
+
+        return w
+
+    def thread_a():
+        try:
+            out["A"] = ("ok", S.build_tawazi(a_sp, plain=a_plain, wrap_site={pause_at: wrap})[0])
+        except BaseException as e:  # noqa: BLE001
+            out["A"] = ("exc", e)
+
+    def thread_c():
+        ev_in.wait(20)
+        try:
+            out["C"] = ("ok", S.build_tawazi(c_sp, plain=c_plain)[0])
+        except BaseException as e:  # noqa: BLE001
+            out["C"] = ("exc", e)
+
+    args = [Sym("arg", cidx, "b")]
+    ref = S.run_reference(shared_sp, args, shared_plain)
+    old = cfg.TAWAZI_EXECNODE_OUTSIDE_DAG_BEHAVIOR
+
+    def thread_b():
+        ev_in.wait(20)
+        B.Settings.controlled = False
+        out["B_call"] = run_op_id("call_shared_while_other_thread_builds", lambda: shared(*args), "b%d" % cidx)
+        cfg.TAWAZI_EXECNODE_OUTSIDE_DAG_BEHAVIOR = behaviour
+        try:
+            with warnings.catch_warnings(record=True) as wl:
+                warnings.simplefilter("always")
+                try:
+                    out["B_fn"] = ("ok", outside(Sym("direct", cidx)), len(wl))
+                except BaseException as e:  # noqa: BLE001
+                    out["B_fn"] = ("exc", e, len(wl))
+        finally:
+            cfg.TAWAZI_EXECNODE_OUTSIDE_DAG_BEHAVIOR = old
+        ev_go.set()
+
+    B.reset_log()
+    probes.reset_counts()
+    ta, tb, tc = threading.Thread(target=thread_a), threading.Thread(target=thread_b), threading.Thread(target=thread_c)
+    ta.start()
+    tb.start()
+    tc.start()
+    for t in (ta, tb, tc):
+        t.join(60)
+    ev_go.set()
+    col.evaluations += 1
+    col.counters["c16_build_overlaps"] += 1
+    if any(t.is_alive() for t in (ta, tb, tc)) or "B_call" not in out or "B_fn" not in out or "A" not in out:
+        col.violation(pid, "threads_blocked_during_overlapped_build", dict(done=sorted(out), building=S.render(a_sp)), rp)
+        return
+    # B: running a DAG in another thread is unaffected by the build
+    r = out["B_call"]
+    if ref[0] == "ok":
+        if r[0] != "ok":
+            col.violation(pid, "dag_call_during_other_threads_build_raised", dict(exc=repr(r[1])[:300], shared=S.render(shared_sp)), rp)
+        elif not same(ref[1].result, r[1]):
+            col.violation(pid, "dag_call_during_other_threads_build_returned_wrong_value", dict(
+                expected=short(ref[1].result, 300), got=short(r[1], 300), shared=S.render(shared_sp)), rp)
+    # B: a decorated function outside any DAG behaves as configured
+    f = out["B_fn"]
+    col.counters["c16_outside_calls_%s" % behaviour.value] += 1
+    expv = probes.run_ref(lambda: outside.exec_function(Sym("direct", cidx)))[1]
+    if behaviour == XNOutsideDAGCall.error:
+        if not (f[0] == "exc" and isinstance(f[1], TawaziUsageError)):
+            col.violation(pid, "decorated_function_outside_dag_did_not_raise_during_other_threads_build", dict(outcome=short(f[:2], 200), configured="error"), rp)
+    else:
+        if not (f[0] == "ok" and same(f[1], expv)):
+            col.violation(pid, "decorated_function_outside_dag_did_not_run_during_other_threads_build", dict(outcome=short(f[:2], 200), configured=behaviour.value), rp)
+        elif behaviour == XNOutsideDAGCall.warning and f[2] < 1:
+            col.violation(pid, "decorated_function_outside_dag_did_not_warn_during_other_threads_build", dict(outcome=short(f[:2], 200)), rp)
+    # A and C: identical to the DAGs built alone
+    for nm, fp0 in (("A", fp_a), ("C", fp_c)):
+        if nm not in out:
+            continue
+        if out[nm][0] != "ok":
+            col.violation(pid, "overlapped_build_raised", dict(which=nm, exc=repr(out[nm][1])[:300], building=S.render(a_sp)), rp)
+            continue
+        diff = fp_diff(fingerprint(out[nm][1]), fp0)
+        if diff:
+            col.violation(pid, "dag_built_during_overlap_differs_from_dag_built_alone", dict(which=nm, diff=diff, building=S.render(a_sp), shared=S.render(shared_sp)), rp)
+    col.hashes.add(S.spec_hash({"a": S.render(a_sp), "s": S.render(shared_sp), "p": pause_at, "b": behaviour.value}))
+    if cidx % 20 == 1:
+        col.sample(dict(workload="build paused inside describing function while another thread calls a DAG / a decorated function",
+                        building=S.render(a_sp), paused_before_call_site=pause_at, shared=S.render(shared_sp), outside_behaviour=behaviour.value))
+
+
+def w3_concurrent_builds(col, rng, cidx, jobref):
+    pid = "C16"
+    nthreads = rng.choice([2, 4, 8])
+    specs = []
+    for t in range(nthreads):
+        sp = sched.gen_shape(rng, nmin=2, nmax=7, mc_max=3)
+        sp["name"] = "b%d" % t
+        specs.append(sp)
+    plains = [S.make_fns(sp) for sp in specs]
+    alone = [fingerprint(S.build_tawazi(sp, plain=pl)[0]) for sp, pl in zip(specs, plains)]
+    rp = {"kind": "rerun_job", "job": dict(jobref, n_cases=cidx + 1)}
+    out = {}
+    start = threading.Barrier(nthreads)
+    old = sys.getswitchinterval()
+    sys.setswitchinterval(1e-6)
+
+    def worker(t):
+        start.wait()
+        res = []
+        for _ in range(3):
+            try:
+                res.append(("ok", fingerprint(S.build_tawazi(specs[t], plain=plains[t])[0])))
+            except BaseException as e:  # noqa: BLE001
+                res.append(("exc", e))
+        out[t] = res
+
+    try:
+        ths = [threading.Thread(target=worker, args=(t,)) for t in range(nthreads)]
+        for t in ths:
+            t.start()
+        for t in ths:
+            t.join(120)
+    finally:
+        sys.setswitchinterval(old)
+    col.evaluations += 1
+    col.counters["c16_concurrent_build_rounds"] += 1
+    for t in range(nthreads):
+        for r in out.get(t, []):
+            col.counters["c16_concurrent_builds"] += 1
+            if r[0] != "ok":
+                col.violation(pid, "concurrent_build_raised", dict(exc=repr(r[1])[:300], source=S.render(specs[t])), rp)
+            else:
+                diff = fp_diff(r[1], alone[t])
+                if diff:
+                    col.violation(pid, "dag_built_concurrently_differs_from_dag_built_alone", dict(diff=diff, source=S.render(specs[t])), rp)
+    col.hashes.add(S.spec_hash({"b": [S.render(sp) for sp in specs]}))
+
+
+@job("conc16")
+def job_conc16(j):
+    rng = random.Random(j["seed"])
+    col = Collector()
+    if j.get("lockset", True):
+        LOCKSET.install()
+    for c in range(j["n_cases"]):
+        w = c % 3
+        try:
+            if w == 0:
+                w1_concurrent_calls(col, rng, c, j)
+            elif w == 1:
+                w2_build_overlap(col, rng, c, j)
+            else:
+                w3_concurrent_builds(col, rng, c, j)
+        except (KeyboardInterrupt, SystemExit):
+            raise
+        except BaseException as e:  # noqa: BLE001
+            # every program built / called here is valid: an exception escaping tawazi is itself the interference witness
+            tb = traceback.extract_tb(e.__traceback__)
+            if any("/tawazi/" in f.filename for f in tb):
+                col.violation("C16", "valid_build_or_call_raised_in_concurrent_workload", dict(
+                    workload=["concurrent_calls", "build_overlap", "concurrent_builds"][w], exc=repr(e)[:300],
+                    where=["%s:%d" % (f.name, f.lineno) for f in tb if "/tawazi/" in f.filename][-3:]),
+                    {"kind": "rerun_job", "job": dict(j, n_cases=c + 1)})
+            else:
+                raise
+    if LOCKSET.installed:
+        col.counters["c16_lockset_touches_checked"] += LOCKSET.touches
+        seen = Counter(LOCKSET.reports)
+        for (op, which, inner, outer, lock_held), cnt in seen.most_common(5):
+            col.violation("C16", "lockset_build_state_touched_by_thread_not_owning_the_build_lock", dict(
+                op=op, object=which, innermost_tawazi_frame=inner, outermost_tawazi_frame=outer, build_lock_held_by_other_thread=lock_held,
+                count=cnt), {"kind": "rerun_job", "job": dict(j)})
+    return col.result()
+
+
+# ------------------------------------------------------------------------------------------------ C17
+class LoopWatch:
+    """Loop-liveness handshake: a probe running in a worker asks the event loop to serve it; only a sibling coroutine of
+    the SAME loop can answer. A time-out only triggers stack sampling of the loop thread; the stack is the verdict."""
+
+    def __init__(self):
+        self.q = queue.Queue()
+        self.loop_thread = None
+        self.served = 0
+        self.stop = False
+        self.verdicts = []
+
+    async def sibling(self):
+        self.loop_thread = threading.get_ident()
+        while not self.stop:
+            try:
+                while True:
+                    ev = self.q.get_nowait()
+                    ev.set()
+                    self.served += 1
+            except queue.Empty:
+                pass
+            await asyncio.sleep(0.0005)
+
+    def ask(self, timeout=5.0):
+        ev = threading.Event()
+        self.q.put(ev)
+        if ev.wait(timeout):
+            return True
+        samples = []
+        for _ in range(20):
+            fr = sys._current_frames().get(self.loop_thread)
+            st = traceback.extract_stack(fr) if fr else []
+            tw = [x for x in st if "/tawazi/" in x.filename]
+            top = st[-1] if st else None
+            idle = any("selectors" in x.filename or x.name == "_run_once" and x is top for x in st[-2:])
+            if tw and not idle:
+                samples.append("tawazi:%s:%s" % (tw[-1].name, top.name if top else "?"))
+            elif idle:
+                samples.append("idle-selector")
+            else:
+                samples.append("other:%s" % (top.name if top else "?"))
+            time.sleep(0.01)
+        self.verdicts.append(samples)
+        if all(s.startswith("tawazi:") for s in samples):
+            # the loop is blocked by the scheduler: the run cannot finish - record and leave the process
+            from . import jobs as _jobs
+
+            col = _jobs.CURRENT["col"]
+            if col is not None:
+                col.violation("C17", "event_loop_blocked_by_scheduler_while_async_thread_node_runs",
+                              dict(loop_thread_stack_samples=dict(Counter(samples))), {"kind": "hang", "label": "liveness"})
+            _jobs.panic(None)
+        return False
+
+
+def a17_case(col, rng, cidx, jobref):
+    pid = "C17"
+    from tawazi import AsyncDAG
+
+    # ---- (1) same source in both flavours ---------------------------------------------------------------
+    sp = sched.gen_shape(rng, nmin=2, nmax=8, mc_max=4)
+    # a few setup nodes (ancestor closed, no DAG argument, no flag)
+    g = S.site_graph(sp)
+    setup = set()
+    for i, nd in enumerate(sp["nodes"]):
+        uses_param = any(a[0] == "p" for a in nd["args"])
+        reused = sum(1 for m in sp["nodes"] if m["fn"] == nd["fn"]) > 1
+        if not uses_param and not reused and nd["active"] is None and all(q in setup for q in g.predecessors(i)) and rng.random() < 0.25:
+            setup.add(i)
+            sp["fns"][nd["fn"]]["setup"] = True
+    plain = {name: probes.mkprobe(name, shape=tuple(fs["shape"]) if fs.get("shape") else None) for name, fs in sp["fns"].items()}
+    ids = S.node_ids(sp)
+    rp = {"kind": "rerun_job", "job": dict(jobref, n_cases=cidx + 1), "source": S.render(sp)}
+    outs = {}
+    args = [Sym("arg", cidx)]
+    ref = S.run_reference(sp, args, plain)
+    for fl in (False, True):
+        sp2 = dict(sp, is_async=fl)
+        d, _e, _p = S.build_tawazi(sp2, plain=plain)
+        case = sched.run_case(sp2, args=args, controlled=rng.random() < 0.5, d=d, plain=plain)
+        ent = Counter(e["node"] for e in case["log"] if e["kind"] == "FENTER")
+        setup_res = {ids[i]: d.results.get(ids[i], "MISSING") for i in setup}
+        outs[fl] = (case["res"], ent, setup_res)
+        col.evaluations += 1
+    col.counters["c17_flavour_pairs"] += 1
+    (rs, es, ss), (ra, ea, sa) = outs[False], outs[True]
+    if rs[0] != ra[0]:
+        col.violation(pid, "one_flavour_raises_the_other_returns", dict(sync=short(rs, 200), asynchronous=short(ra, 200), source=S.render(sp)), rp)
+    elif rs[0] == "ok":
+        if not same(rs[1], ra[1]):
+            col.violation(pid, "asyncdag_value_differs_from_dag", dict(sync=short(rs[1], 300), asynchronous=short(ra[1], 300), source=S.render(sp)), rp)
+        if ref[0] == "ok" and not same(ref[1].result, ra[1]):
+            col.violation(pid, "asyncdag_value_differs_from_reference", dict(expected=short(ref[1].result, 300), got=short(ra[1], 300), source=S.render(sp)), rp)
+        if es != ea:
+            col.violation(pid, "asyncdag_executes_other_nodes_than_dag", dict(sync=sorted(es.items()), asynchronous=sorted(ea.items()), source=S.render(sp)), rp)
+        if setup:
+            col.counters["c17_setup_result_comparisons"] += 1
+            if not same(ss, sa):
+                col.violation(pid, "asyncdag_records_other_setup_results_than_dag", dict(sync=short(ss, 300), asynchronous=short(sa, 300), source=S.render(sp)), rp)
+    # ---- (2) K concurrent awaits with distinct nonces ---------------------------------------------------
+    sp3 = dict(sp, is_async=True)
+    for f in sp3["fns"].values():
+        f = f  # noqa: PLW0127
+    d3, _e, _p = S.build_tawazi(sp3, plain=plain)
+    if setup:
+        asyncio.run(d3.setup())
+    K = rng.choice([2, 5, 10, 30, 100]) if jobref.get("big") else rng.choice([2, 5, 10, 30])
+    argl = [[Sym("arg", cidx, "k", k)] for k in range(K)]
+    env_values = {i: d3.results[ids[i]] for i in setup if ids[i] in d3.results}
+    refs = [S.run_reference(sp3, a, plain, env_values=env_values) for a in argl]
+    B.reset_log()
+    probes.reset_counts()
+    B.Settings.controlled = False
+    B.Settings.stress_sleep = 0.001
+
+    async def many():
+        return await asyncio.gather(*[d3(*a) for a in argl], return_exceptions=True)
+
+    res = probes.run_op("gather", lambda: asyncio.run(many()))
+    log = B.snapshot()
+    col.evaluations += 1
+    col.counters["c17_gathers"] += 1
+    if res[0] != "ok":
+        col.violation(pid, "gather_of_concurrent_awaits_raised", dict(exc=repr(res[1])[:300], awaits=K, source=S.render(sp)), rp)
+    else:
+        for k, (rf, got) in enumerate(zip(refs, res[1])):
+            col.counters["c17_concurrent_awaits"] += 1
+            if rf[0] != "ok":
+                continue
+            if isinstance(got, BaseException):
+                col.violation(pid, "concurrent_await_raised", dict(exc=repr(got)[:300], awaits=K, source=S.render(sp)), rp)
+            elif not same(rf[1].result, got):
+                col.violation(pid, "concurrent_await_got_result_for_other_arguments_or_wrong_value", dict(
+                    expected=short(rf[1].result, 300), got=short(got, 300), awaits=K, index=k, source=S.render(sp)), rp)
+        # every execution entered each active call site once
+        toks = [e["token"] for e in log if e["kind"] == "POOL_NEW"]
+        per = Counter((e["token"], e["node"]) for e in log if e["kind"] == "FENTER")
+        if any(c != 1 for c in per.values()):
+            col.violation(pid, "call_site_entered_more_than_once_in_one_concurrent_await", dict(
+                repeated=[(t, nn, c) for (t, nn), c in per.items() if c != 1][:5], awaits=K, source=S.render(sp)), rp)
+        if len(toks) != K:
+            col.counters["c17_token_count_mismatch"] += 1
+    # ---- (3) the loop keeps serving other coroutines while async-thread nodes run --------------------------
+    sp4 = sched.gen_shape(rng, nmin=2, nmax=6, mc_max=3, mix="async_main", flags=False)
+    sp4["is_async"] = True
+    lw = LoopWatch()
+
+    def mk_live(name):
+        base = probes.mkprobe(name)
+        res_is_async = sp4["fns"][name]["resource"] == "async-thread"
+
+        def fn(*a, **k):
+            if res_is_async and not getattr(B.TLS, "ref", False):
+                ok = lw.ask(jobref.get("live_timeout", 5.0))
+                B.ev("LIVE", token=B.cur_token(), node=getattr(B.TLS, "node", None), served=ok)
+            return base(*a, **k)
+
+        fn.__name__ = fn.__qualname__ = name
+        return fn
+
+    plain4 = {name: mk_live(name) for name in sp4["fns"]}
+    d4, _e, _p = S.build_tawazi(sp4, plain=plain4)
+    if isinstance(d4, AsyncDAG) and any(f["resource"] == "async-thread" for f in sp4["fns"].values()):
+        B.reset_log()
+        B.Settings.controlled = False
+        B.Settings.stress_sleep = 0.0
+
+        async def main():
+            sib = asyncio.ensure_future(lw.sibling())
+            try:
+                return await d4(Sym("arg", cidx, "live"))
+            finally:
+                lw.stop = True
+                await sib
+
+        res = probes.run_op("await_with_sibling", lambda: asyncio.run(main()))
+        log = B.snapshot()
+        lives = [e for e in log if e["kind"] == "LIVE"]
+        col.evaluations += 1
+        col.counters["c17_liveness_handshakes"] += len(lives)
+        col.counters["c17_liveness_served"] += sum(1 for e in lives if e["served"])
+        for e, samples in zip([e for e in lives if not e["served"]], lw.verdicts):
+            c = Counter(samples)
+            if all(s.startswith("tawazi:") for s in samples):
+                col.violation(pid, "event_loop_blocked_by_scheduler_while_async_thread_node_runs", dict(
+                    node=e["node"], loop_thread_stack_samples=dict(c), source=S.render(sp4)), rp)
+            else:
+                col.inconclusive.append("liveness handshake timed out but the loop thread was not inside tawazi: %s" % dict(c))
+        if res[0] != "ok":
+            col.counters["c17_liveness_run_raised"] += 1
+    col.hashes.add(S.spec_hash({"s": S.render(sp), "k": K, "l": S.render(sp4)}))
+    if cidx % 15 == 0:
+        col.sample(dict(source=S.render(sp), setup=[ids[i] for i in sorted(setup)], concurrent_awaits=K, liveness_program=S.render(sp4),
+                        handshakes_served=lw.served))
+
+
+@job("async17")
+def job_async17(j):
+    rng = random.Random(j["seed"])
+    col = Collector()
+    for c in range(j["n_cases"]):
+        a17_case(col, rng, c, j)
+    return col.result()
